@@ -78,10 +78,6 @@ NAMED = {
         "the split-off piece has length offset + 2 >= 2",
     ("<cln_plugin::codec::MultiLineCodec as tokio_util::codec::Encoder<T>>::encode", "arith:Add"):
         "line.len() is an in-memory length (<= isize::MAX); + 2 cannot overflow usize",
-    ("cln_plugin::PluginDriver::dispatch_one", "diverge:todo"):
-        "typed Request/Notification variants are only getmanifest/init, sent once by the node before the driver loop starts",
-    ("cln_plugin::PluginDriver::dispatch_one", "unwrap:notification-task"):
-        "a failing notification handler panics only its own spawned task; C20 tolerates a lost notification",
     ("<cln_plugin::logging::trace::LoggingLayer as tracing_subscriber::Layer<S>>::on_event", "unwrap:tokio::sync::mpsc::UnboundedSender::send"):
         "the receiver lives in the writer task, which ends only when every sender is gone",
 }
@@ -319,6 +315,14 @@ class Discharger:
         # `let Some(x) = e else { panic!(..) }` / `match e { None => panic!(..), .. }` is `e.expect(..)` written out:
         # the site is reached exactly when e is None/Err, so it is discharged like the unwrap of e
         macs = span_macros(s.call.sp) if s.call is not None else []
+        if macs and macs[-1] == "todo" and "src/cln_plugin/" in s.body.span.get("f", ""):
+            # the typed arms of the framework's message enum: messages::Request / messages::Notification have only the
+            # getmanifest/init variants, which the node sends once before the driver loop starts; everything else is
+            # decoded as the Custom* variants
+            for cnd, truth in lib.dominating_conditions(s.body, s.bb):
+                if cnd.kind == "enum" and getattr(cnd, "enum_ty", "").startswith("cln_plugin::messages::JsonRpc<") and isinstance(truth, tuple) \
+                        and set(truth) <= {"Request", "Notification"}:
+                    return True, "structural exception: typed Request/Notification variants are only getmanifest/init, sent once by the node before the driver loop starts"
         if macs and macs[-1] in ("panic", "unreachable", "std::panic", "core::panic"):
             best = None
             for cnd, truth in lib.dominating_conditions(s.body, s.bb):
@@ -385,10 +389,18 @@ class Discharger:
                 if a[0] == "field" and a[1] == "1" and a[4][0] == "call" and a[4][1] == "tokio::sync::oneshot::channel":
                     s.what = "unwrap:oneshot-receiver"
                     return self._oneshot_receiver(s)
-            # notification handler future in dispatch_one's spawned tasks
-            if s.root == "cln_plugin::PluginDriver::dispatch_one":
-                s.what = "unwrap:notification-task"
-                return False, "awaited handler result unwrapped"
+            # notification handler future awaited in a task of its own (tokio::spawn(async move { cb(..).await.unwrap() })) in the
+            # plugin framework: a failing notification handler panics only that task; C20 tolerates a lost notification
+            if "src/cln_plugin/" in body.span.get("f", "") and body.coroutine and \
+                    any(a[0] == "call" and a[1] in ("std::ops::Fn::call", "std::ops::FnMut::call_mut", "std::ops::FnOnce::call_once") for a in alts(inner)):
+                spawned = False
+                for (pb, bi, si, ops, st) in self.F.closure_sites.get(body.def_, []):
+                    for c2 in pb.calls:
+                        if c2.name == "tokio::spawn" and c2.args and any(y[0] == "agg" and y[1] == "closure:" + body.cdef for y in walk(strip(self.X.operand(pb, c2.args[0])))):
+                            spawned = True
+                if spawned:
+                    s.what = "unwrap:notification-task"
+                    return True, "structural exception: a failing notification handler panics only its own spawned task; C20 tolerates a lost notification"
         # guarded by is_some()/is_ok() on the same place
         if s.call is None:
             return False, "value not proved Some/Ok: %s" % show(e)[:160]
